@@ -316,6 +316,17 @@ func expandC10Faults(base Scenario, res *Result, tier string) []Scenario {
 		v.SchedSeed = r.Uint64()
 		out = append(out, &v)
 	}
+	// the device stops taking bytes: write w of the login blocks until the transport is closed
+	// (silence of another kind: the outcome must be the timeout error and a closed transport)
+	for w := 0; w < b.Plan.Answered && w < 6; w++ {
+		v := *b
+		v.Ops = append([]OpSpec(nil), b.Ops...)
+		v.F.WriteStallAt = 2*w + 1 + r.IntN(2)
+		v.Holds = nil
+		v.Class = b.Auth + "/write-stall"
+		v.SchedSeed = r.Uint64()
+		out = append(out, &v)
+	}
 	// C06 during open: the connection is lost at byte k of the login dialogue
 	for k := 0; k < l; k += 2 * stride {
 		for _, kind := range []string{"eof", "readerr"} {
@@ -443,6 +454,25 @@ func runC10(env *Env, s Scenario) {
 		}
 		if sr.Tr.CloseCount() == 0 {
 			env.Fail("transport-left-open", "", "Open failed (%v) but the transport was not closed", open.Err)
+		}
+
+		return
+	}
+	if sc.F.WriteStallAt > 0 {
+		// the device stopped taking bytes in the middle of the login
+		if sr.Tr.Faults()["write-stall"] == 0 {
+			env.Probe("write-stall-not-reached")
+		} else {
+			env.Probe("write-stall-during-login")
+			switch {
+			case open.Err == nil:
+				env.Fail("open-succeeds-on-a-stalled-device", "", "the device stopped taking bytes at write %d of the login, Open reported success", sc.F.WriteStallAt-1)
+			case open.Class != "timeout":
+				env.Fail("wrong-error-class", "", "the device stopped taking bytes at write %d but Open failed with %q (class %s), want a timeout error", sc.F.WriteStallAt-1, open.Err, open.Class)
+			}
+			if sr.Tr.CloseCount() == 0 {
+				env.Fail("transport-left-open", "", "Open failed (%v) but the transport was not closed", open.Err)
+			}
 		}
 
 		return
